@@ -10,6 +10,7 @@
 
 mod defs;
 mod hist;
+mod bumpx;
 mod util;
 
 use std::panic::{catch_unwind, AssertUnwindSafe};
@@ -212,9 +213,9 @@ fn sub_read(small: bool) {
 fn sub_bump(small: bool) {
     use defs::*;
     let texts: Vec<&str> = if small {
-        vec!["", "a", "hé llo", "😀+é", "ab 12 ..."]
+        vec!["", "a", "hé llo", "😀+é", "ab 12 ...", "a\u{10FFFF}b"]
     } else {
-        vec!["", "a", "ab", "hello world", "hé llo", "😀+é", "ab 12 ... \"x\"", "€€€", "a😀b", "é", "12+34 λ", "  x  ", "....", "\"unterminated", "a\tb\nc", "ÿÿ 1", "z😀", "😀😀", "aé€😀z+1", "x y z 1 2 3"]
+        vec!["", "a", "ab", "hello world", "hé llo", "😀+é", "ab 12 ... \"x\"", "€€€", "a😀b", "é", "12+34 λ", "  x  ", "....", "\"unterminated", "a\tb\nc", "ÿÿ 1", "z😀", "😀😀", "aé€😀z+1", "x y z 1 2 3", "a\u{10FFFF}b", "\u{100000}\u{10FFFF}1"]
     };
     let (mut cases, mut ok_bumps, mut panics, mut after_panic) = (0usize, 0usize, 0usize, 0usize);
     for text in &texts {
@@ -335,7 +336,13 @@ fn sub_bump(small: bool) {
             }
         }
     }
-    summary("bump", &[("cases", cases), ("successful_bumps", ok_bumps), ("panicking_bumps", panics), ("lexers_used_after_caught_panic", after_panic), ("nontrivial", panics + ok_bumps)]);
+    let mut cx = bumpx::Counters::default();
+    bumpx::run(small, &mut cx);
+    cases += cx.cases;
+    ok_bumps += cx.ok_bumps;
+    panics += cx.panics;
+    after_panic += cx.after_panic;
+    summary("bump", &[("cases", cases), ("successful_bumps", ok_bumps), ("panicking_bumps", panics), ("lexers_used_after_caught_panic", after_panic), ("partial_lexer_cases", cx.partial_cases), ("wrapper_source_cases", cx.wrapper_cases), ("nontrivial", panics + ok_bumps)]);
     sample("bump", "source \"hé llo\", lexer after 1 next(): bump(n) for n in 0..=len+2 and around usize::MAX, usize::MAX/2, usize::MAX-end; outcome vs model, span invariant checked before slice()");
 }
 
